@@ -13,7 +13,7 @@ and application messages of every member are decrypted by every other member."""
 import json
 
 from .common import *
-from .histlib import HistGen, run_scripts
+from .histlib import HistGen, run_scripts, block_join_history
 
 FIELDS = ("ctx", "tree_bytes", "auth", "exp", "cth", "tree_hash", "ext")
 
@@ -307,6 +307,12 @@ def main(run, args):
     quick = run.tier == "quick"
     items = [gen(rng, i, quick) for i in range(24 if quick else 240)]
     items += [holes_gen(rng, i, quick) for i in range(32 if quick else 320)]
+    # joins next to a removed block: the joiner's keys above a filtered node are needed when the far side commits
+    for i in range(8 if quick else 60):
+        suite = [1, 2, 3][i % 3]
+        provs = [["openssl"], ["rustcrypto"], ["awslc"], ["openssl", "awslc", "rustcrypto"]][i % 4]
+        g, marks = block_join_history(rng, i, f"c01-block-{i}", quick, suite=suite, providers=provs)
+        items.append((g.script(), {"marks": marks, "kinds": {"block_join": 1}, "talk": [], "final_members": list(g.in_group), "suite": suite, "providers": provs}))
     recs = run_scripts([x[0] for x in items], timeout=3000)
     failing, stats = judge(items, recs)
     run.obligation("all members agree after every commit of every history; epoch +1; all-to-all decryption", not failing and stats["member_comparisons"] > 0)
